@@ -398,6 +398,12 @@ impl<T: Tab + 'static> State<T> {
                 let s = self.get(a).text(arg_str(op, "f"));
                 ok(vec![a], Some(json!(s.as_bytes())))
             }
+            "text_fail" => {
+                // a formatting trait writing into a sink that gives up after `limit` bytes
+                let a = arg_usize(op, "a");
+                let res_ok = self.get(a).text_fail(arg_str(op, "f"), arg_usize(op, "limit"));
+                ok(vec![a], Some(json!(res_ok)))
+            }
             "bdd" => {
                 let xs = arg_list(op, "xs");
                 let list: Vec<T> = xs.iter().map(|&s| self.get(s).clone()).collect();
